@@ -374,6 +374,9 @@ func (w *world) checkOp(ob *vh.ObservedBlock, i int, o *op, res *abci.ExecTxResu
 	if !persist {
 		run.Count("failing_calls_checked_for_no_effect", 1)
 	}
+	if _, _, burn := c.parties(caller); burn && persist && c.Amount.Sign() > 0 && pre.bal(cpctypes.CpcModuleAddress, c.Tok).Sign() > 0 {
+		run.Count("burns_while_transit_account_holds_the_token", 1)
+	}
 	if c.Tok == 0 && c.moves() && owner == sender && persist {
 		run.Count("native_moves_by_fee_payer", 1)
 	}
